@@ -375,8 +375,18 @@ func registerBigFloat(e *Engine) {
 		x := floatOf(a[0])
 		return x.C != nil && x.C.IsInf()
 	})
-	R("(*math/big.Float).String", opaqueString)
-	R("(*math/big.Float).Text", opaqueString)
+	R("(*math/big.Float).String", func(fr *frame, a []value) value {
+		if x := floatOf(a[0]); x.C != nil {
+			return x.C.String()
+		}
+		return opaqueStr
+	})
+	R("(*math/big.Float).Text", func(fr *frame, a []value) value {
+		if x := floatOf(a[0]); x.C != nil {
+			return x.C.Text(a[1].(uint8), int(asInt64(a[2])))
+		}
+		panic(abortPath{"unsupported", "big.Float.Text of a symbolic value (order price keys need concrete order volumes)"})
+	})
 	R("(*math/big.Float).Prec", func(fr *frame, a []value) value {
 		f := floatOf(a[0])
 		if f.C != nil {
